@@ -266,12 +266,12 @@ theorem bex_facts (cfg : Cfg) (s : LEx) (mgr : Nat) (hm : s.isMgr = fun a => a =
     · rw [hl]; exact (listStep_set _ _ _ _ _ _ _).symm
     · exact listEv_set _ _ _ _ _ _ _ _ _ _ _ (by rw [hs']; exact f2) (fun hg => by rw [hs', f1 hg])
 
-/-- **capped token**, one call: the cap stays and the supply stays at or below it -/
-theorem cap_facts (cfg : Cfg) (s : CTok) (cap : Int) (hc : s.cap = some cap) (hs : s.tok.supply ≤ cap)
-    (auth : List Nat) (op : GOp) {st' : St} (h : applyCap cfg s auth op = some st') :
-    ∃ s', st' = .cap s' ∧ s'.cap = some cap ∧ s'.tok.supply ≤ cap := by
-  cases op <;> simp only [applyCap] at h <;> try cases h
-  rename_i o
+/-- **capped token**, one call of the token: the cap stays, and the call either leaves the supply where it was
+or (a mint, which is checked against the cap) leaves it at or below the cap -/
+theorem cap_facts (cfg : Cfg) (s : CTok) (cap : Int) (hc : s.cap = some cap)
+    (auth : List Nat) (o : Fungible.Op) {st' : St} (h : applyCap cfg s auth (.tok o) = some st') :
+    ∃ s', st' = .cap s' ∧ s'.cap = some cap ∧ (s'.tok.supply = s.tok.supply ∨ s'.tok.supply ≤ cap) := by
+  simp only [applyCap] at h
   obtain ⟨s', hx, e⟩ := okSt_some h
   refine ⟨s', e, ?_⟩
   cases o with
@@ -280,29 +280,43 @@ theorem cap_facts (cfg : Cfg) (s : CTok) (cap : Int) (hc : s.cap = some cap) (hs
     obtain ⟨u, hcc, hx⟩ := bind_eq_ok hx
     obtain ⟨t, ht, e⟩ := ctok_withTok_ok hx
     subst e
-    exact ⟨hc, (check_cap_then_mint s cap hc to amt t hcc ht).2.1⟩
+    exact ⟨hc, .inr (check_cap_then_mint s cap hc to amt t hcc ht).2.1⟩
   | burn f amt => simp only [CTok.apply] at hx; cases hx
   | burnFrom sp f amt => simp only [CTok.apply] at hx; cases hx
   | transfer f t amt =>
     simp only [CTok.apply] at hx
     obtain ⟨t', ht, e⟩ := ctok_withTok_ok hx
     subst e
-    exact ⟨hc, by simp only; rw [apply_supply_nonmint (by trivial) ht]; exact hs⟩
+    exact ⟨hc, .inl (by simp only; rw [apply_supply_nonmint (by trivial) ht])⟩
   | transferFrom sp f t amt =>
     simp only [CTok.apply] at hx
     obtain ⟨t', ht, e⟩ := ctok_withTok_ok hx
     subst e
-    exact ⟨hc, by simp only; rw [apply_supply_nonmint (by trivial) ht]; exact hs⟩
+    exact ⟨hc, .inl (by simp only; rw [apply_supply_nonmint (by trivial) ht])⟩
   | approve ow sp amt lu =>
     simp only [CTok.apply] at hx
     obtain ⟨t', ht, e⟩ := ctok_withTok_ok hx
     subst e
-    exact ⟨hc, by simp only; rw [apply_supply_nonmint (by trivial) ht]; exact hs⟩
+    exact ⟨hc, .inl (by simp only; rw [apply_supply_nonmint (by trivial) ht])⟩
   | advance n =>
     simp only [CTok.apply] at hx
     obtain ⟨t', ht, e⟩ := ctok_withTok_ok hx
     subst e
-    exact ⟨hc, by simp only; rw [apply_supply_nonmint (by trivial) ht]; exact hs⟩
+    exact ⟨hc, .inl (by simp only; rw [apply_supply_nonmint (by trivial) ht])⟩
+
+/-- **`set_cap` called again**: accepted exactly for a non-negative cap, which it installs; the token is untouched -/
+theorem setcap_facts (cfg : Cfg) (s : CTok) (auth : List Nat) (c : Int) {st' : St}
+    (h : applyCap cfg s auth (.setCap c) = some st') :
+    0 ≤ c ∧ st' = .cap { s with cap := some c } := by
+  simp only [applyCap] at h
+  obtain ⟨s', hx, e⟩ := okSt_some h
+  unfold setCap at hx
+  by_cases hn : c < 0
+  · rw [if_pos hn] at hx; cases hx
+  · rw [if_neg hn] at hx
+    injection hx with hx
+    subst hx
+    exact ⟨by omega, e⟩
 
 /-- **migration contracts** (harness contract, v1 example, prebuilt v2 wasm) -/
 theorem mig_facts (s : Mig) (v : Nat) (w : Bool) (auth : List Nat) (op : GOp) {st' : St}
@@ -381,7 +395,7 @@ def AgreeSt (m : Mon) : St → Prop
   | .blib s => m.kind = .blib ∧ m.ghost = s.listed
   | .aex s => m.kind = .aex ∧ m.ghost = s.t.listed ∧ s.isMgr = (fun a => a == m.mgr)
   | .bex s => m.kind = .bex ∧ m.ghost = s.t.listed ∧ s.isMgr = (fun a => a == m.mgr)
-  | .cap s => m.kind = .cap ∧ s.cap = some m.cap ∧ s.tok.supply ≤ m.cap
+  | .cap s => m.kind = .cap ∧ s.cap = some m.cap ∧ m.sup = s.tok.supply
   | .mig s _ => m.kind = .mig ∧ m.credit = s.migrating ∧ m.owner = s.owner
   | .bad => False
 
@@ -433,8 +447,16 @@ theorem rejected_quiet {m : Mon} {st : St} (ha : AgreeSt m st) (l : Line) (now :
       hk, hs.trans hg, hm⟩
   | cap s =>
     obtain ⟨hk, hc, hs⟩ := ha
-    exact ⟨vPause_off (by rw [hk]; rfl), vList_off (by rw [hk]; rfl), qe,
-      vCap_none (o := modelObs ⟨.cap s, now⟩ false ev) hc hs, vMig_off (by rw [hk]; decide), hk, hc, hs⟩
+    refine ⟨vPause_off (by rw [hk]; rfl), vList_off (by rw [hk]; rfl), qe,
+      vCap_none (o := modelObs ⟨.cap s, now⟩ false ev) (fun h => by cases h.1) hc ?_, vMig_off (by rw [hk]; decide), hk, ?_, rfl⟩
+    · rintro ⟨h1, _⟩
+      have : (modelObs ⟨.cap s, now⟩ false ev).st.sup = s.tok.supply := rfl
+      rw [this, hs] at h1
+      omega
+    · show s.cap = some (capStep m l (modelObs ⟨.cap s, now⟩ false ev))
+      unfold capStep
+      rw [if_neg (fun h => by cases h.1)]
+      exact hc
   | mig s v =>
     obtain ⟨hk, hc, ho⟩ := ha
     obtain ⟨q, hs⟩ := mig_rejected (m := m) (l := l) (o := modelObs ⟨.mig s v, now⟩ false ev) rfl hc.symm
@@ -500,10 +522,43 @@ theorem accepted_quiet (cfg : Cfg) {m : Mon} {st : St} (ha : AgreeSt m st) (now0
       hm'.trans hm⟩
   | cap s =>
     obtain ⟨hk, hc, hs⟩ := ha
-    obtain ⟨s', rfl, hc', hs'⟩ := cap_facts cfg s m.cap hc hs auth op hap
-    exact ⟨vPause_off (by rw [hk]; rfl), vList_off (by rw [hk]; rfl), vListEv_off (by rw [hk]; rfl),
-      vCap_none (o := modelObs ⟨.cap s', now⟩ true (newEvents (.cap s) (.cap s'))) hc' hs', vMig_off (by rw [hk]; decide),
-      hk, hc', hs'⟩
+    cases op with
+    | tok o =>
+      obtain ⟨s', rfl, hc', hs'⟩ := cap_facts cfg s m.cap hc auth o hap
+      have hcall : ¬ ((modelObs ⟨.cap s', now⟩ true (newEvents (.cap s) (.cap s'))).ok ∧
+          (lineOf w auth (.tok o)).call = .gate .setcap) := fun h => by cases h.2
+      refine ⟨vPause_off (by rw [hk]; rfl), vList_off (by rw [hk]; rfl), vListEv_off (by rw [hk]; rfl),
+        vCap_none (o := modelObs ⟨.cap s', now⟩ true (newEvents (.cap s) (.cap s'))) hcall hc' ?_, vMig_off (by rw [hk]; decide),
+        hk, ?_, rfl⟩
+      · rintro ⟨h1, h2⟩
+        have e : (modelObs ⟨.cap s', now⟩ true (newEvents (.cap s) (.cap s'))).st.sup = s'.tok.supply := rfl
+        rw [e] at h1 h2
+        rcases hs' with h | h
+        · rw [h, hs] at h1; omega
+        · omega
+      · show s'.cap = some (capStep m (lineOf w auth (.tok o)) (modelObs ⟨.cap s', now⟩ true (newEvents (.cap s) (.cap s'))))
+        unfold capStep
+        rw [if_neg hcall]
+        exact hc'
+    | setCap c =>
+      obtain ⟨h0, rfl⟩ := setcap_facts cfg s auth c hap
+      refine ⟨vPause_off (by rw [hk]; rfl), vList_off (by rw [hk]; rfl), vListEv_off (by rw [hk]; rfl),
+        vCap_setcap rfl rfl c rfl h0, vMig_off (by rw [hk]; decide), hk, ?_, rfl⟩
+      show some c = some (capStep m (lineOf w auth (.setCap c))
+        (modelObs ⟨.cap { s with cap := some c }, now⟩ true (newEvents (.cap s) (.cap { s with cap := some c }))))
+      unfold capStep
+      rw [if_pos ⟨rfl, rfl⟩]
+      rfl
+    | pause _ => simp only [applyModel, applyCap] at hap; cases hap
+    | unpause _ => simp only [applyModel, applyCap] at hap; cases hap
+    | increment => simp only [applyModel, applyCap] at hap; cases hap
+    | reset => simp only [applyModel, applyCap] at hap; cases hap
+    | setList _ _ _ => simp only [applyModel, applyCap] at hap; cases hap
+    | enable => simp only [applyModel, applyCap] at hap; cases hap
+    | ensure => simp only [applyModel, applyCap] at hap; cases hap
+    | complete => simp only [applyModel, applyCap] at hap; cases hap
+    | migrate _ _ => simp only [applyModel, applyCap] at hap; cases hap
+    | upgrade _ => simp only [applyModel, applyCap] at hap; cases hap
   | mig s v =>
     obtain ⟨hk, hc, ho⟩ := ha
     obtain ⟨s', v', rfl, ho', F⟩ := mig_facts s v w auth op hap
@@ -608,7 +663,7 @@ theorem init_agree (p : Params) (h0 : initSt p ≠ .bad) : Agree (monInit p) (in
       split at hc
       · cases hc
       · injection hc with hc; subst hc
-        exact ⟨hk, rfl, by simp [monInit, Fungible.init]; omega⟩
+        exact ⟨hk, rfl, by simp [monInit, Fungible.init]⟩
   | mig => exact ⟨hk, rfl, rfl⟩
   | other s => rw [hk] at h0; exact (h0 rfl).elim
 
@@ -674,7 +729,7 @@ theorem legacy_monitor_false_alarm_outside_universe :
 /-- the observation of the repaired defect #5 (fungible-allowlist example burning through
 `Base::burn`): the disallowed holder 2 burns — `site=list.bypass.aex.burn` -/
 example :
-    (checkCore { kind := .aex, owner := 0, mgr := 1, cap := 0, paused := false, ghost := fun i => i == 0,
+    (checkCore { kind := .aex, owner := 0, mgr := 1, cap := 0, sup := 0, paused := false, ghost := fun i => i == 0,
                  credit := false, prev := none }
       ⟨.fungible .burn, [2], [2], 0⟩
       ⟨true, { sup := 960, bal := [900, 0, 60, 0, 0], allow := [], now := 100, paused := false, counter := 0,
@@ -685,7 +740,7 @@ example :
 
 /-- a transfer accepted while the ghost flag says paused — `site=pausable.bypass.ptok.transfer` -/
 example :
-    (checkCore { kind := .ptok, owner := 0, mgr := 0, cap := 0, paused := true, ghost := fun _ => false,
+    (checkCore { kind := .ptok, owner := 0, mgr := 0, cap := 0, sup := 0, paused := true, ghost := fun _ => false,
                  credit := false, prev := none }
       ⟨.fungible .transfer, [1, 3], [1], 0⟩
       ⟨true, { sup := 1500, bal := [1000, 490, 0, 10, 0], allow := [], now := 100, paused := true, counter := 0,
@@ -694,7 +749,7 @@ example :
 
 /-- total supply one above the cap — `site=capped.exceeded` -/
 example :
-    (checkCore { kind := .cap, owner := 0, mgr := 0, cap := 1000, paused := false, ghost := fun _ => false,
+    (checkCore { kind := .cap, owner := 0, mgr := 0, cap := 1000, sup := 0, paused := false, ghost := fun _ => false,
                  credit := false, prev := none }
       ⟨.fungible .mint, [2], [], 0⟩
       ⟨true, { sup := 1001, bal := [0, 500, 501, 0, 0], allow := [], now := 100, paused := false, counter := 0,
@@ -704,7 +759,7 @@ example :
 /-- a migrate accepted with no enable / upgrade since the last completion —
 `site=migration.without_upgrade.migrate` -/
 example :
-    (checkCore { kind := .mig, owner := 0, mgr := 0, cap := 0, paused := false, ghost := fun _ => false,
+    (checkCore { kind := .mig, owner := 0, mgr := 0, cap := 0, sup := 0, paused := false, ghost := fun _ => false,
                  credit := false, prev := none }
       ⟨.gate .migrate, [0], [0], 0⟩
       ⟨true, { sup := 0, bal := [], allow := [], now := 100, paused := false, counter := 0, list := [], cap := none,
@@ -713,7 +768,7 @@ example :
 
 /-- a rejected call after which `paused()` reads differently — `site=gates.rollback.pcnt` -/
 example :
-    (checkCore { kind := .pcnt, owner := 2, mgr := 0, cap := 0, paused := true, ghost := fun _ => false, credit := false,
+    (checkCore { kind := .pcnt, owner := 2, mgr := 0, cap := 0, sup := 0, paused := true, ghost := fun _ => false, credit := false,
                  prev := some { sup := 0, bal := [], allow := [], now := 100, paused := true, counter := 2, list := [],
                                 cap := none, migrating := false, data := none, wasm := false } }
       ⟨.gate .increment, [], [], 0⟩
@@ -725,7 +780,7 @@ example :
 already allowed, `allow 2` is accepted, leaves `allowed()` as it was and emits `allowed:2` once more —
 `site=list.idempotent.alib` -/
 example :
-    (checkCore { kind := .alib, owner := 0, mgr := 1, cap := 0, paused := false, ghost := fun i => i == 2,
+    (checkCore { kind := .alib, owner := 0, mgr := 1, cap := 0, sup := 0, paused := false, ghost := fun i => i == 2,
                  credit := false, prev := none }
       ⟨.gate .allow, [2], [], 0⟩
       ⟨true, { sup := 0, bal := [0, 0, 0, 0, 0], allow := [], now := 100, paused := false, counter := 0,
@@ -737,7 +792,7 @@ example :
 
 /-- a real change (`block 3` of a not-blocked account) that emits nothing — `site=list.event.blib` -/
 example :
-    (checkCore { kind := .blib, owner := 0, mgr := 1, cap := 0, paused := false, ghost := fun _ => false,
+    (checkCore { kind := .blib, owner := 0, mgr := 1, cap := 0, sup := 0, paused := false, ghost := fun _ => false,
                  credit := false, prev := none }
       ⟨.gate .block, [3], [], 0⟩
       ⟨true, { sup := 0, bal := [0, 0, 0, 0, 0], allow := [], now := 100, paused := false, counter := 0,
